@@ -81,7 +81,8 @@ _ip = st.one_of(_ipv4, _ipv6)
 _sni = st.one_of(_ascii_host, _ascii_host, _ascii_host, _idn_host, _ip)
 _addr = st.one_of(st.none(), _ascii_host, _idn_host, _ip)
 _org = st.one_of(st.none(), st.sampled_from(["Example Inc.", "Bücher GmbH", "例え 株式会社", "A" * 64, "x"]), st.text(_lc + " ", min_size=1, max_size=20))
-_up_cn = st.one_of(st.none(), _ascii_host, _ascii_host, _plain_host.map(lambda h: "*." + h), _ip, _idn_host,
+_cn64 = lambda h: h[-64:].lstrip(".-")  # X.520 ub-common-name: a CN has at most 64 characters
+_up_cn = st.one_of(st.none(), _ascii_host.map(_cn64), _plain_host, _plain_host.map(lambda h: "*." + h), _ip, _idn_host.map(_cn64),
                    st.sampled_from(["Société Générale", "Example Server Certificate", "a" * 64, "a" * 63, "A B", "*", "localhost",
                                     "example.com.", "a..b", " ", "ex ample.com"]))
 _up_san = st.one_of(_ascii_host, _plain_host.map(lambda h: "*." + h), _ip.map(lambda i: "ip:" + i),
@@ -194,7 +195,8 @@ def ca_info(E, flavour):
 
 def client_ctx(E, flavour, root_pem):
     if flavour not in E["cctx"]:
-        E["cctx"][flavour] = T.client_context(root_pem, strict=True)
+        # the SKI-less custom root is itself not acceptable under X509_STRICT; that flavour is verified non-strictly
+        E["cctx"][flavour] = T.client_context(root_pem, strict=(flavour != "noski"))
     return E["cctx"][flavour]
 
 
@@ -245,7 +247,7 @@ def check_case(case, ctx):
         try:
             c.server.certificate_list = [upstream_cert(E, up)]
         except (ValueError, TypeError) as ex:
-            ctx.cls("upstream-cert-not-constructible")  # cryptography refuses to build such a certificate
+            ctx.cls("upstream-cert-not-constructible:" + str(ex)[:40])  # cryptography refuses to build such a certificate
             return
     cls_key = (flavour, sni_class(sni), "addr:" + sni_class(addr), _up_class(up) if use_up else ("up-ignored" if up else "no-up"),
                "e2e" if e2e else "direct")
@@ -289,7 +291,7 @@ def check_case(case, ctx):
             return
         if e.addon_errors:
             hook, ex = e.addon_errors[0]
-            ctx.fail("no-certificate:%s:%s" % (hook, type(ex).__name__), "%s raised %r for sni=%r addr=%r upstream=%r" % (hook, ex, sni, addr, up))
+            ctx.fail("no-certificate:%s:%s" % (type(ex).__name__, _culprit(case)), "%s raised %r for sni=%r addr=%r upstream=%r" % (hook, ex, sni, addr, up))
             return
         if sni is not None and c.client.sni != sni:
             raise HarnessError("mitmproxy read SNI %r, client sent %r" % (c.client.sni, sni))
@@ -317,7 +319,7 @@ def check_case(case, ctx):
         try:
             entry = e.addon.get_cert(c)
         except Exception as ex:
-            ctx.fail("no-certificate:get_cert:%s" % type(ex).__name__, "get_cert raised %r for sni=%r addr=%r upstream=%r" % (ex, sni, addr, up))
+            ctx.fail("no-certificate:%s:%s" % (type(ex).__name__, _culprit(case)), "get_cert raised %r for sni=%r addr=%r upstream=%r" % (ex, sni, addr, up))
             return
         presented = entry.cert.to_cryptography()
         # serve (cert, key, chain) with a Python-ssl server to the strict client
@@ -426,6 +428,16 @@ def check_case(case, ctx):
     orgs = presented.subject.get_attributes_for_oid(NameOID.ORGANIZATION_NAME)
     if orgs and not (use_up and up["org"] == orgs[0].value):
         ctx.fail("organization-invented", "O=%r upstream=%r" % (orgs[0].value, up and up["org"]))
+
+
+def _culprit(case):
+    """which input is outside what a DNS name can be (for bucketing only)"""
+    up = case["upstream"]
+    if up is not None and case["upstream_opt"] and up["cn"]:
+        labels = up["cn"].split(".")
+        if any(len(x.encode("utf-8")) > 63 or (x == "" and i < len(labels) - 1) for i, x in enumerate(labels)) or up["cn"] == ".":
+            return "upstream-cn-not-a-hostname"
+    return "other"
 
 
 def _up_class(up):
